@@ -1577,8 +1577,8 @@ func isComplexAggregationExpression(expr string) bool {
 	isSingleAggWithNestedFunc := false
 	if aggCount == 1 && outerIsAggregation {
 		start := strings.Index(expr, "(")
-		end := strings.LastIndex(expr, ")")
-		if start != -1 && end != -1 && end > start {
+		end := findMatchingParenInternal(expr, start)
+		if start != -1 && end > start && strings.TrimSpace(expr[end+1:]) == "" {
 			innerExpr := strings.TrimSpace(expr[start+1 : end])
 			if !containsOperators(innerExpr) {
 				isSingleAggWithNestedFunc = true
